@@ -205,6 +205,12 @@ func (c14) step(t []string) string {
 		return itoa(slices.SafeGetOr(parseInts(t[1]), atoi(t[2]), atoi(t[3])))
 	case "last":
 		return itoa(slices.Last(parseInts(t[1])))
+	case "mclonenil":
+		// Clone of a nil map (the zero value of a map type): a NEW, writable map
+		var m map[int]int
+		c := maps.Clone(m)
+		c[1] = 2
+		return fmtPairs(sortedMapPairs(c)) + " " + itoa(len(m))
 	case "mclone":
 		m := mapFromPairs(t[1])
 		c := maps.Clone(m)
